@@ -334,6 +334,14 @@ func textbook() map[string]*gram {
 		"epsilon_heavy":   {prods: []lrref.Prod{P("start", N("x"), N("y"), N("x")), P("x", T("a")), P("x"), P("y", T("b")), P("y")}},
 		"epsilon_lists":   {prods: []lrref.Prod{P("start", N("l")), P("l", N("l"), T("a")), P("l"), P("l", T("b"))}},
 		"right_recursive": {prods: []lrref.Prod{P("start", T("a"), N("start")), P("start", T("b"))}},
+		"juxtaposition_rule_handle": {prods: []lrref.Prod{P("start", e), P("e", e, e), P("e", T("a"))},
+			levels: []lrref.Level{{Assoc: "left", Prods: map[string]bool{P("e", e, e).String(): true}}, {Assoc: "left", Terms: map[string]bool{"a": true}}}, lines: []string{`@left < e = e e >`, `@left "a"`}},
+		"juxtaposition_rule_handle_right": {prods: []lrref.Prod{P("start", e), P("e", e, e), P("e", T("a"))},
+			levels: []lrref.Level{{Assoc: "right", Prods: map[string]bool{P("e", e, e).String(): true}}, {Assoc: "left", Terms: map[string]bool{"a": true}}}, lines: []string{`@right < e = e e >`, `@left "a"`}},
+		"dangling_else_empty_rule_handle": {prods: []lrref.Prod{P("start", N("s")), P("s", T("i"), N("s"), N("p")), P("s", T("o")), P("p", T("e"), N("s")), P("p")},
+			levels: []lrref.Level{{Assoc: "right", Terms: map[string]bool{"e": true}, Prods: map[string]bool{P("p").String(): true}}}, lines: []string{`@right "e" < p = >`}},
+		"dangling_else_empty_rule_handle_trailing_bar": {prods: []lrref.Prod{P("start", N("s")), P("s", T("i"), N("s"), N("p")), P("s", T("o")), P("p", T("e"), N("s")), P("p")},
+			levels: []lrref.Level{{Assoc: "right", Terms: map[string]bool{"e": true}, Prods: map[string]bool{P("p").String(): true, P("p", T("e"), N("s")).String(): true}}}, lines: []string{`@right "e" < p = "e" s | >`}},
 		"dangling_else_resolved": {prods: []lrref.Prod{P("start", N("s")), P("s", T("i"), N("s")), P("s", T("i"), N("s"), T("e"), N("s")), P("s", T("o"))},
 			levels: []lrref.Level{{Assoc: "right", Terms: map[string]bool{"e": true}}, {Assoc: "right", Terms: map[string]bool{"i": true}}}, lines: []string{`@right "e"`, `@right "i"`}},
 	}
